@@ -54,9 +54,33 @@ FIXED = [
 ]
 
 
+def loader_stream(ctx, quick, hexes=None):
+    """The Coq model of the loader (SchemaScan/Loader.v: scanner events -> example nodes with their rules as written -> the AST view) against the library:
+    tools/loader_difftest.py compares, per text, the loader-only probe (hook load_probe.go) with the model on the whole AST, and GetAST with the model on the written rules."""
+    import subprocess, sys, tempfile, os, re
+    out = tempfile.mktemp(prefix="c16loader", suffix=".json", dir=os.path.join(vc.ROOT, "build"))
+    if hexes is not None:
+        args = ["--one"] + ["--hex=" + h for h in hexes]
+    else:
+        args = (["targeted", "enumrules", "edge", "good", "gen", "tokens", "--n=2500"] if quick else ["--n=20000"]) + ["--seed=%d" % ctx.seed]
+    pr = subprocess.run([sys.executable, os.path.join(vc.ROOT, "tools", "loader_difftest.py"), "--json=" + out] + args, capture_output=True, text=True, timeout=7200)
+    try:
+        d = json.load(open(out)); os.unlink(out)
+    except Exception:
+        ctx.report("the loader difftest did not run: %s" % (pr.stderr[-400:] or pr.stdout[-400:]), "c16loader-run", {"stdout": pr.stdout[-2000:], "stderr": pr.stderr[-2000:]}, no_input=True)
+        return
+    ctx.evaluations += d["total"]
+    ctx.extra["loader_model"] = {"texts": d["total"], "mismatches": len(d["mismatches"]), "stats": {k: v for k, v in d["stats"].items() if not k.startswith("code")},
+                                 "loader_error_codes_agreed": {k[4:]: v for k, v in d["stats"].items() if k.startswith("code")}}
+    for mm in d["mismatches"][:20]:
+        t = bytes.fromhex(mm["text_hex"])
+        ctx.report("the library's loader / GetAST and the Coq loader model differ (%s) on %r: library %s ;; model %s" % (mm["kind"], t[:160], mm["ref"][:200], mm["model"][:200]),
+                   "c16loader:" + mm["text_hex"], {"loader_text_hex": mm["text_hex"], "kind": mm["kind"], "library": mm["ref"], "model": mm["model"]}, case=mm["text_hex"])
+
+
 def run(ctx):
-    st = vc.prepare(ctx, need_model=False)
-    if not st["impl"]:
+    st = vc.prepare(ctx, need_model=True)
+    if not st["impl"] or not st.get("model", True):
         ctx.report("harness failed to build: " + json.dumps(st["logs"])[:1500], "build", st["logs"], no_input=True)
         return
     quick = ctx.tier == "quick"
@@ -124,10 +148,16 @@ def run(ctx):
                            {"schema": t, "types": ty, "ast": got, "expected": want, "difference": d}, case=t)
     ctx.extra["cases"] = len(cases)
     ctx.samples.append({"schema": cases[2][0], "expected_ast": cases[2][2]})
+    loader_stream(ctx, quick)
     if not st["proof"] and not ctx.violations:
         pass
 
 
 def replay(ctx, path):
+    r = json.load(open(path))
+    if "loader_text_hex" in r:
+        vc.prepare(ctx, need_model=True)
+        loader_stream(ctx, True, hexes=[r["loader_text_hex"]])
+        return
     vc.prepare(ctx, need_model=False)
     run(ctx)
